@@ -12,7 +12,7 @@ import sys
 import tempfile
 import time
 
-VERIF = "/verif"
+VERIF = os.path.dirname(os.path.dirname(os.path.abspath(__file__)))   # /verif, or a snapshot of it (vp run)
 REPO = os.environ.get("VERIF_REPO", "/repo")
 SPEC = os.path.join(VERIF, "spec")
 HARNESS = os.path.join(VERIF, "harness")
